@@ -23,6 +23,8 @@ def mk_amount(nd, rep):
         return int(n)
     if rep == 'frac':
         return Fraction(n, d)
+    if rep == 'bool' and d == 1 and n in (0, 1):
+        return bool(n)
     if rep == 'float':
         return n / d
     if rep == 'stddec':
@@ -170,6 +172,11 @@ def run_program(world, prog):
             ev['id'] = '%s:%d' % (pid, idx)
             o = op['op']
             res = None
+            # an operation that names a register nothing was stored in is not
+            # executed and not recorded (the specification never sees it)
+            used = [op[f] for f in ('x', 'y') if f in op] + list(op.get('rs', []))
+            if any(r not in regs for r in used):
+                continue
             try:
                 if o == 'SetMode':
                     decimalfp.set_dflt_rounding_mode(ROUNDING[op['m']])
@@ -224,6 +231,15 @@ def run_program(world, prog):
                     ev['rem'] = rat_json(rem.amount)
                     events.append(ev)
                     continue
+                elif o == 'Sum':
+                    res = world.quantity.sum([regs[r] for r in op['rs']])
+                elif o == 'Sort':
+                    items = [regs[r] for r in op['rs']]
+                    order = sorted(range(len(items)), key=lambda j: items[j])
+                    ev['perm'] = [j + 1 for j in order]
+                    ev['exc'] = ''
+                    events.append(ev)
+                    continue
                 elif o == 'HashEq':
                     x, y = regs[op['x']], regs[op['y']]
                     eq = bool(x == y)
@@ -241,7 +257,8 @@ def run_program(world, prog):
             except Exception as exc:      # the outcome of the call is an exception
                 if isinstance(exc, RuntimeError) and 'unknown op' in str(exc):
                     raise
-                if o in ('Alloc', 'HashEq'):
+                if o in ('Alloc', 'HashEq', 'Sort'):
+                    ev['perm'] = []
                     ev['shape'] = False
                     ev['ps'] = []
                     ev['rem'] = [0, 1]
@@ -258,6 +275,8 @@ def run_program(world, prog):
                 if isinstance(res, tuple):
                     if len(res) == 2 and res[1] is None:
                         regs[op['z']] = res[0]
+                    else:
+                        regs.pop(op['z'], None)
                 else:
                     regs[op['z']] = res
             events.append(ev)
